@@ -314,6 +314,13 @@ def battery(st, enc):
         add('ravel', 't.ravel()', 'S', s)
         add('concat-self', 'np.concatenate([t, t])', 'S', s + s)
         add('split', 'split(t, %r)' % sep, 'R', s.split(sep))
+        two = sorted({sep, present} | ({absent} if absent else set()), reverse=True)
+        if len(two) >= 2:
+            # a LIST of separator characters, written in descending code order, and the same list ascending
+            import re as _re
+            pieces = _re.split('[' + ''.join(_re.escape(c) for c in two) + ']', s)
+            add('split-on-any-of', 'split(t, %r)' % (two,), 'R', pieces)
+            add('split-on-any-of', 'split(t, %r)' % (two[::-1],), 'R', pieces)
         add('str-equal', 'str_equal(t, %r)' % s, 'b', True)
         if m:
             add('str-equal', 'str_equal(t, %r)' % p, 'b', False)
